@@ -397,8 +397,32 @@ impl World {
     pub fn balance(&self, who: &str, d: u64) -> u128 {
         self.app.wrap().query_balance(who, denom(d)).map(|c| c.amount.u128()).unwrap_or(0)
     }
+    /// every non-zero (account, denom) balance held by the bank module (cw-multi-test 1.2 has no supply query)
+    pub fn all_balances(&self) -> std::collections::BTreeMap<(String, String), u128> {
+        self.app.read_module(|_r, _a, st| {
+            let mut pre: Vec<u8> = vec![0, 4];
+            pre.extend_from_slice(b"bank");
+            pre.extend_from_slice(&[0, 8]);
+            pre.extend_from_slice(b"balances");
+            let mut end = pre.clone();
+            *end.last_mut().unwrap() += 1;
+            let mut out = std::collections::BTreeMap::new();
+            for (k, v) in st.range(Some(&pre), Some(&end), cosmwasm_std::Order::Ascending) {
+                let who = String::from_utf8_lossy(&k[pre.len()..]).to_string();
+                let coins: Vec<Coin> = serde_json::from_slice(&v).unwrap_or_default();
+                for c in coins {
+                    if !c.amount.is_zero() {
+                        out.insert((who.clone(), c.denom.clone()), c.amount.u128());
+                    }
+                }
+            }
+            out
+        })
+    }
+    /// total of a denom over all accounts (= supply: burns remove coins from the table)
     pub fn supply(&self, d: u64) -> u128 {
-        self.app.wrap().query_supply(denom(d)).map(|c| c.amount.u128()).unwrap_or(0)
+        let dn = denom(d);
+        self.all_balances().iter().filter(|((_, dd), _)| *dd == dn).map(|(_, a)| *a).sum()
     }
     pub fn coins(funds: &[(u64, u128)]) -> Vec<Coin> {
         funds.iter().map(|(d, a)| coin(*a, denom(*d))).collect()
